@@ -30,4 +30,15 @@ CLAIMS = {
           "(progressive and fragmented, incl. the encode_* convenience forms) no store to that state lies on any CFG path ending in an Err/`?` exit; a failing call therefore executes no state store. "
           "Three genuine defects found by this rule on the pinned tree were repaired (fix: commits, known_findings.json).",
   "note": "Path-insensitive (plain CFG reachability; stores of a fallible callee are placed on its Continue edge). State = memory reachable from the &mut receiver; the thread-local invariant log is excluded because C17.R2 shows muxing never reads it."},
+ "C10": {
+  "technique": "store inventory + dominance + guard extraction on MIR (fragmented muxer), layout interpretation for the segment builder",
+  "text": "Decides the conservation argument structurally for every write/flush/query interleaving: the only mutations of the sample queue are push (write) and mem::take (flush) and the builder gets exactly the taken vector; the None exit of flush is store-free; "
+          "the sequence counter starts at 1, is incremented once after the builder call which receives the pre-increment value; the only rejection is guarded by dts < last_dts and is store-free; readiness queries are &self and pure.",
+  "note": "Relies on std contracts of mem::take and Vec::push. R4/R5 (data_offset and same-samples-same-order in trun/mdat) are layout rules."},
+ "C19": {
+  "technique": "layout interpretation of typed HIR (symbolic byte productions of all box builders) compared with specification transcriptions",
+  "text": "Derives, from the type-checked source, the byte layout of every box/record emitted in every configuration (if/match kept as alternatives, loops as repetitions) and compares it field by field with transcriptions of ISO/IEC 14496-12/-14/-15 and the AV1/VP9/Opus bindings: "
+          "size, version/flags, reserved bits, constants, field positions, source of each value field, counted tables, length-prefixed parameter sets, descriptor lengths, track IDs vs next_track_ID. Symbolic, hence for all dimensions/rates/parameter sets. "
+          "Found 9 genuine layout defects on the pinned tree: 2 repaired, 7 recorded (pinned by the golden fixture or not small).",
+  "note": "Trusted: my transcription of the specifications (lib/mx/spec.py) and the interpreter. Value-level packing (language code, profile bytes) is not decided."},
 }
